@@ -252,6 +252,18 @@ theorem propOf_notAck (p : Nat) (ms : List Msg) : ∀ o ∈ ms.filterMap (propOf
   | accept d b slot cmd ci => simp only [propOf, Option.some.injEq] at hm; subst hm; rfl
   | _ => simp [propOf] at hm
 
+theorem pcarsOf_mem (dst b : Nat) : ∀ (es : List Entry) (k : Nat) (o : LogObs),
+    o ∈ pcarsOf dst b k es → ∃ k' c, o = .pcar dst b k' c := by
+  intro es
+  induction es with
+  | nil => intro k o ho; cases ho
+  | cons e es ih =>
+    intro k o ho
+    simp only [pcarsOf, List.mem_cons] at ho
+    rcases ho with rfl | ho
+    · exact ⟨k, e.cmd, rfl⟩
+    · exact ih _ o ho
+
 theorem obsStep_notAck (s : St) (a : Act) (hna : ∀ p slot, a ≠ .accepted p slot) :
     ∀ o ∈ obsStep s a, notAck o = true := by
   intro o ho
@@ -272,6 +284,19 @@ theorem obsStep_notAck (s : St) (a : Act) (hna : ∀ p slot, a ≠ .accepted p s
     rcases ho with rfl | ho
     · rfl
     · exact propOf_notAck _ _ o ho
+  | prepare d b =>
+    simp only [obsStep] at ho
+    split at ho
+    · cases ho
+    · simp only [List.mem_cons] at ho
+      rcases ho with rfl | ho
+      · rfl
+      · obtain ⟨k', c, rfl⟩ := pcarsOf_mem _ _ _ _ o ho; rfl
+  | submit p c =>
+    simp only [obsStep] at ho
+    split at ho
+    · simp only [List.mem_singleton] at ho; subst ho; rfl
+    · cases ho
   | _ =>
     simp only [obsStep] at ho
     exact propOf_notAck _ _ o ho
